@@ -173,7 +173,7 @@ def _run_one(perms, mode, shape, seed, fail, outcome):
         A[i, sorted(ok_set)] = True
     best = np.asarray([b for _, b in acc_sets])
     alpha_np = np.asarray(alpha, dtype=np.float64)
-    for _once in (0,):
+    for _single_pass in (0,):  # `continue` below = give up on this (material set, mode, shape) after a reported failure
         ncell = int(np.prod(shape))
         t = PT.make(ClosestIndex(mapping_from_inverse_permittivities=inverse), mats, shape)
         f = lambda x: t({"params": x})["params"]  # noqa: E731
